@@ -15,7 +15,22 @@ def showI2C (r : I2CParsed) : String :=
   let a := match r.address with
     | none => "-"
     | some a => toString a
-  s!"f={f} a={a} v={b01 r.valid} c={b01 r.called}"
+  s!"f={f} a={a} V={b01 r.valid} C={b01 r.called}"
+
+def parseCps? (s : String) : Option (List Nat) :=
+  if s == "" then some [] else (s.splitOn ".").mapM String.toNat?
+
+def parseOwElems? (s : String) : Option (Dict (List Nat)) :=
+  if s == "-" then some [] else
+  (s.splitOn ",").mapM fun w =>
+    match w.splitOn ":" with
+    | [k, v] => do pure ((← k.toNat?), (← parseCps? v))
+    | _ => none
+
+def showOw (r : OWParsed) : String :=
+  let es := if r.elements.isEmpty then "-" else
+    ",".intercalate (r.elements.map fun (k, v) => s!"{k}:{toHex v}")
+  s!"p={r.pins} v={r.vid} i={r.pid} e={es} V={b01 r.valid} C={b01 r.called}"
 
 def step (_ : Unit) (ws : List String) : Unit × String :=
   let r : String :=
@@ -28,6 +43,22 @@ def step (_ : Unit) (ws : List String) : Unit × String :=
     | ["i2c_parse", mem] =>
       match ofHex? mem with
       | some m => showExcept showI2C (i2cUpdate m)
+      | none => "bad-op"
+    | ["crc32", d] =>
+      match ofHex? d with
+      | some b => s!"ok {crc32 b}"
+      | none => "bad-op"
+    | ["ow_write", pins, vid, pid, es] =>
+      match pins.toInt?, vid.toInt?, pid.toInt?, parseOwElems? es with
+      | some pins, some vid, some pid, some es => showExcept toHex (owImage { pins, vid, pid, elements := es })
+      | _, _, _, _ => "bad-op"
+    | ["ow_parse", mem] =>
+      match ofHex? mem with
+      | some m => showExcept showOw (owUpdate m)
+      | none => "bad-op"
+    | ["ow_parse_live", mem] =>
+      match ofHex? mem with
+      | some m => showExcept showOw (owUpdateLive m)
       | none => "bad-op"
     | _ => "bad-op"
   ((), r)
